@@ -89,13 +89,14 @@ func (ln *listener) Accept() (net.Conn, error) {
 
 // Close implements Listener.
 func (ln *listener) Close() error {
-	if ln.fd != 0 {
-		vp(vpFdClose, nil, int64(ln.fd), 2)
-		syscall.Close(ln.fd)
-	}
+	// ln.fd is the descriptor of ln.file (see parseFD): it is closed through its owner, exactly once.
+	// Closing the raw number as well closed it twice; the second close hits whatever got the number meanwhile.
 	if ln.file != nil {
 		vp(vpFdClose, nil, int64(ln.fd), 3)
 		ln.file.Close()
+	} else if ln.fd != 0 {
+		vp(vpFdClose, nil, int64(ln.fd), 2)
+		syscall.Close(ln.fd)
 	}
 	if ln.ln != nil {
 		ln.ln.Close()
